@@ -129,7 +129,7 @@ pub struct Report {
 
 pub const MAX_VIOLATIONS_KEPT: usize = 6;
 pub const QUICK_MULT: usize = 4;
-pub const THOROUGH_MULT: usize = 3;
+pub const THOROUGH_MULT: usize = 5;
 pub const SAMPLES_PER_KIND: usize = 2;
 
 impl Ctx {
